@@ -1,13 +1,46 @@
-//! Fixed two-thread program run under Miri by checks/c17.py: both threads create treap nodes
-//! (the only shared state such threads could touch is the priority generator).
-use rlib_treap::TreapNode;
+//! Program run under Miri by checks/c17.py.  The same jobs as the executor (../prog.rs), in one process:
+//! three threads released by a barrier run whole jobs (direct `TreapNode::new` draws through several
+//! instantiations, then a treap program each: insert_at / from_item + merge / split_by / lazy push /
+//! remove_at / collect / first / last / Debug / TreePrinter), one of them spawns a nested child in the
+//! middle of its stream, one treap is built on one thread and finished on another, and at the end a
+//! late thread draws alone.  Printed: one `L` line per logical thread (checked by the plugin like an
+//! executor observation) and `S` = the late thread's draws.
+#[path = "../prog.rs"]
+mod prog;
+use prog::{draws, job, job_first, job_second, solo_draws};
+use std::sync::{Arc, Barrier};
 
 fn main() {
-    let hs: Vec<_> = (0..2)
-        .map(|_| std::thread::spawn(|| (0..8).map(|i| TreapNode::new(i).priority).collect::<Vec<u32>>()))
+    let barrier = Arc::new(Barrier::new(3));
+    let hs: Vec<_> = (0..3usize)
+        .map(|tid| {
+            let b = barrier.clone();
+            std::thread::spawn(move || {
+                b.wait();
+                if tid == 2 {
+                    let mut head = draws(2);
+                    let c = std::thread::spawn(move || job(3, 3, 5, 3));
+                    let mut me = job(tid, 2, 6, 2);
+                    head.extend_from_slice(&me.prios);
+                    me.prios = head;
+                    vec![me, c.join().unwrap()]
+                } else {
+                    vec![job(tid, 4, 6, tid)]
+                }
+            })
+        })
         .collect();
-    for h in hs {
-        let v = h.join().unwrap();
-        println!("{:?}", v);
+    let mut reps: Vec<_> = hs.into_iter().flat_map(|h| h.join().unwrap()).collect();
+    // hand-off: built on one thread, finished on another while a third one draws
+    let (first, run) = std::thread::spawn(|| job_first(4, 2, 8, 3)).join().unwrap();
+    reps.push(first);
+    let other = std::thread::spawn(|| job(5, 3, 4, 1));
+    reps.push(std::thread::spawn(move || job_second(4, 1, run)).join().unwrap());
+    reps.push(other.join().unwrap());
+    for r in &reps {
+        println!("{}", r.line());
     }
+    let n = reps.iter().map(|r| r.prios.len()).max().unwrap_or(0);
+    let solo = std::thread::spawn(move || solo_draws(n)).join().unwrap();
+    println!("S {}", solo.iter().map(|x| x.to_string()).collect::<Vec<_>>().join(" "));
 }
